@@ -138,7 +138,7 @@ def changes(c, rng):
     decoys = [n_ for (mp, n_) in R][:2]
     newdefs = [type_def(True, 'Unrelated', [a_int('align', 4)], [field(True, 'a', ty_id('u32'))])] + \
               [type_def(True, n_, [a_ident('packed')], [field(True, 'z', ty_arr(ty_id('u8'), 3))]) for n_ in decoys]
-    for newpath in (['zz_new'], ['zz', 'deep', 'new']):
+    for newpath in rng.sample([['zz_new'], ['zz', 'deep', 'new'], ['mod'], ['lib'], ['zz', 'mod']], 5):
         if tuple(newpath) not in modmap:
             out.append(('add-module', c[:4] + [me + [modent(path(*newpath), module(defs=newdefs))]] + c[5:], own)); break
     # 1b. a new module nested *below* the observed module (a/b.pyxis next to a.pyxis): nothing in it is reachable
